@@ -1,5 +1,6 @@
 """C20 — the instruction trace shows the fetched bytes and their Y86-64 disassembly."""
 
+from props import C19
 from props import C18
 
 THEOREM_MODULES = ["Hcl.Theorems.C20", "Hcl.Tie.Disasm"]
@@ -37,4 +38,6 @@ def streams(tier, seed):
             {"name": "trace", "stream": "trace", "count": 3000 if q else 100000, "judge": judge},
             # under -d / --trace-assignments with the instruction line switched off, no `pc = ...` line may appear (data-memory reads
             # are not instruction fetches): the lines of every cycle against the message model, as in C18
-            {"name": "messages", "stream": "messages", "count": 200 if q else 6000, "judge": C18.judge_messages}]
+            {"name": "messages", "stream": "messages", "count": 200 if q else 6000, "judge": C18.judge_messages},
+            # what the user sees goes through the command line and the two files: the real binary on accepted, rejected, big, not-UTF-8, bare-CR files, good and malformed images, all options and TIMEOUT forms (as in C19)
+            {"name": "cli", "stream": "cli", "count": 200 if q else 5000, "pygen": C19.pygen, "judge": C19.judge}]
